@@ -31,11 +31,17 @@ pub fn panic_signature(stderr: &str) -> Option<String> {
     let line = parts.next().unwrap_or("?");
     let path = parts.next().unwrap_or(loc);
     let msg = rest[loc_end..].trim_start_matches([':', '\n', ' ']).lines().next().unwrap_or("").trim();
+    // keep the stable head of the message: cut at the first ';' or quote (what follows usually
+    // quotes input-dependent data)
+    let msg = msg.split([';', '\'']).next().unwrap_or(msg).trim();
     let msg: String = msg.chars().filter(|c| !c.is_ascii_digit()).take(60).collect::<String>().replace(' ', "_");
     if let Some(k) = path.find("/registry/src/") {
         let tail = &path[k + 14..];
         let tail = tail.split_once('/').map(|(_, t)| t).unwrap_or(tail);
         Some(format!("{tail}:{line}:{msg}"))
+    } else if let Some(k) = path.find("/library/") {
+        // the standard library (no #[track_caller] at this site): toolchain-independent form
+        Some(format!("std:{}:{msg}", &path[k + 9..]))
     } else {
         Some(format!("{path}:{msg}"))
     }
@@ -613,6 +619,56 @@ fn eval_tiny(ctx: &Ctx, case: &TinyCase) -> Verdict {
 }
 
 // ---------------------------------------------------------------------------------------------
+// hostile GT values in otherwise valid VCF text
+
+#[derive(Clone, Debug, Serialize, Deserialize)]
+pub struct GtValueCase {
+    pub gt: String,
+    pub format_keys: String,
+}
+
+fn gt_value_cases() -> Vec<GtValueCase> {
+    let gts = [
+        "\u{e9}/0", "0/\u{e9}", "\u{383}", "\u{1F600}", "\u{1F600}/\u{1F600}", "0\u{e9}1", "\u{661}/\u{662}", "0/", "/0", "/", "|", "||", "0//1", "0|1|", "0/1/", "/0/1", "4294967296/0", "0/4294967296",
+        "99999999999999999999/0", "18446744073709551615|18446744073709551615", "-1/0", "0/-1", "+1/0", " 0/1", "0 /1", "0/1 ", "0/1:", ":", "0/1:5:6:7", "./.", ".", "..", "./", "/.", "0/.x", "x", "1e3/0", "0x1/0", "0/1\u{0}", "\u{0}",
+        "0/0/0/0/0/0/0/0/0/0/0/0/0/0/0/0/0/0/0/0/0/0/0/0/0/0/0/0/0/0/0/0", "255/255", "256/0", "127/128",
+    ];
+    let mut v = Vec::new();
+    for gt in gts {
+        for keys in ["GT", "GT:DP", "DP:GT"] {
+            v.push(GtValueCase { gt: gt.to_string(), format_keys: keys.to_string() });
+        }
+    }
+    v
+}
+
+fn eval_gt_value(ctx: &Ctx, case: &GtValueCase) -> Verdict {
+    let dir = ctx.worker_dir(crate::engine::worker_id());
+    let value = |gt: &str| match case.format_keys.as_str() {
+        "GT" => gt.to_string(),
+        "GT:DP" => format!("{gt}:7"),
+        _ => format!("7:{gt}"),
+    };
+    let text = format!(
+        "##fileformat=VCFv4.3\n##contig=<ID=chr1,length=1000>\n##FORMAT=<ID=GT,Number=1,Type=String,Description=\"Genotype\">\n##FORMAT=<ID=DP,Number=1,Type=Integer,Description=\"Depth\">\n#CHROM\tPOS\tID\tREF\tALT\tQUAL\tFILTER\tINFO\tFORMAT\tsmp0\tsmp1\nchr1\t5\t.\tA\tC\t.\t.\t.\t{}\t{}\t{}\nchr1\t9\t.\tA\tC\t.\t.\t.\t{}\t{}\t{}\n",
+        case.format_keys,
+        value("0/1"),
+        value("1/1"),
+        case.format_keys,
+        value(&case.gt),
+        value("0/0"),
+    );
+    std::fs::write(dir.join("gtv.vcf"), &text).expect("write");
+    let mut pass = Pass::new();
+    for argv in [vec!["create", "gtv.vcf"], vec!["create", "-s", "smp0", "gtv.vcf"], vec!["create", "-s", "smp1", "gtv.vcf"], vec!["create", "--strict", "gtv.vcf"], vec!["create", "-p", "1", "gtv.vcf"]] {
+        let run = cli::sfs(ctx, &argv, Input::Null, &dir);
+        let ex = judge(ctx, &run, &format!("`sfs {}` on a VCF whose second record has the sample value {:?} under FORMAT {}", argv.join(" "), value(&case.gt), case.format_keys))?;
+        finish(&mut pass, ex, &run);
+    }
+    Ok(pass)
+}
+
+// ---------------------------------------------------------------------------------------------
 // absurd declared shapes (text and npy)
 
 #[derive(Clone, Debug, Serialize, Deserialize)]
@@ -720,6 +776,13 @@ pub fn check(ctx: &Ctx) -> Check {
             eval: Box::new(eval_args),
         }),
         Box::new(EnumPart {
+            name: "hostile-gt-values",
+            rule: "a valid two-sample VCF whose second record carries a hostile GT value (non-ASCII, empty alleles, dangling separators, allele numbers beyond u32/u64, signs, spaces, NUL, 32-ploid, extra subfields) under FORMAT GT / GT:DP / DP:GT, through 5 create command lines",
+            exhaustive: true,
+            cases: Box::new(|_| gt_value_cases()),
+            eval: Box::new(eval_gt_value),
+        }),
+        Box::new(EnumPart {
             name: "absurd-shapes",
             rule: "text headers declaring 0-length axes, products beyond 2^64, 40 axes, malformed headers; npy dicts with 0 / huge / empty / duplicate shapes, header lengths 0 .. 2^32-1, unknown versions; each through 10 view/fold/stat commands",
             exhaustive: true,
@@ -743,12 +806,48 @@ pub fn check(ctx: &Ctx) -> Check {
         Box::new(RandomPart {
             name: "g6-mutated-callsets",
             rule: "the same mutators on call-set seeds in all four containers (plain VCF, BGZF VCF one line per block, BGZF BCF with stored blocks so that mutations reach the BCF structure, raw BCF), through 8 create command lines, by path or stdin",
-            cases: ctx.tier.pick(3000, 60_000),
+            cases: ctx.tier.pick(2000, 60_000),
             strategy: Box::new(|| mut_strategy().boxed()),
             eval: Box::new(eval_mut_callset),
         }),
     ];
     let _ = splitmix64;
+    let mut parts = parts;
+    parts.push(Box::new(crate::fuzzrun::FuzzPart {
+        name: "libfuzzer-fz_spectrum",
+        target: "fz_spectrum",
+        rule: "coverage-guided (libFuzzer + ASan): bytes -> file -> auto-detecting reader -> fold, all 14 statistics, every marginalization, a projection, normalize, write both formats, re-read; no panic, and the accepted spectrum obeys mass / shape / round-trip invariants",
+        runs: ctx.tier.pick(0, 2_000_000),
+        max_len: 1024,
+        seeds: Box::new(|_| spectrum_seeds()),
+    }));
+    parts.push(Box::new(crate::fuzzrun::FuzzPart {
+        name: "libfuzzer-fz_create",
+        target: "fz_create",
+        rule: "coverage-guided (libFuzzer + ASan): 4 configuration bytes + input bytes -> hooked genotype reader builder (detection included) -> site reader loop with a sample map and optional projection; no panic other than allow-listed dependency panics, count indices inside the spectrum, total weight one per counted site",
+        runs: ctx.tier.pick(0, 1_000_000),
+        max_len: 4096,
+        seeds: Box::new(|_| {
+            callset_seeds()
+                .into_iter()
+                .enumerate()
+                .map(|(i, (bytes, _))| {
+                    let mut v = vec![0u8, (i % 4) as u8, (i % 3) as u8, 0];
+                    v.extend(bytes);
+                    v
+                })
+                .filter(|b| b.len() <= 4096)
+                .collect()
+        }),
+    }));
+    parts.push(Box::new(crate::fuzzrun::FuzzPart {
+        name: "libfuzzer-fz_npy",
+        target: "fz_npy",
+        rule: "coverage-guided (libFuzzer + ASan): bytes -> Array::read_npy, no panic",
+        runs: ctx.tier.pick(0, 1_000_000),
+        max_len: 2048,
+        seeds: Box::new(|_| crate::props::c15::npy_fuzz_seeds()),
+    }));
     Check {
         parts,
         level: "exploration",
